@@ -1295,7 +1295,10 @@ tp_thread_proc(void *data) {
 
 	tpt->tp->threads_cnt ++;
 	LIBLCB_VERIF_YIELD("tp_thread_proc.starting");
-	tpt->state = TP_THREAD_STATE_RUNNING;
+	/* Do not overwrite TP_THREAD_STATE_STOPING that tp_shutdown() may set. */
+	size_t state_starting = TP_THREAD_STATE_STARTING;
+	__atomic_compare_exchange_n(&tpt->state, &state_starting,
+	    TP_THREAD_STATE_RUNNING, 0, __ATOMIC_SEQ_CST, __ATOMIC_SEQ_CST);
 
 	snprintf(thr_name, sizeof(thr_name), "%s: %zu",
 	    tpt->tp->s.name, tpt->thread_num);
